@@ -16,7 +16,8 @@
 // constructors of that struct stored.  Therefore every composite literal of type ObjectStreamDict is
 // listed in a second table osd_constructions, with the kind of the expression assigned to its
 // MaxDecodeBytes field (no such field in the literal: LDefault, since 0 selects the package default).
-// saveDecodedStreamContent(nil, ...) is listed as LDefault (decodeLimit(nil) = package default).
+// saveDecodedStreamContent(nil, ...) is listed as LDefault (decodeLimit(nil) = package default);
+// saveDecodedStreamContentWithLimit(..., e) -> kind of e (decodeLimit(nil) is LDefault).
 // The two defaulting wrappers themselves (StreamDict.Decode / StreamDict.DecodeLength) are skipped.
 package main
 
@@ -129,12 +130,14 @@ func main() {
 					limitExpr = ce.Args[0]
 				case isSel && name == "DecodeLengthWithLimit" && len(ce.Args) == 2:
 					limitExpr = ce.Args[1]
+				case !isSel && name == "saveDecodedStreamContentWithLimit" && len(ce.Args) == 6:
+					limitExpr = ce.Args[5] // read.go: decodes with sd.DecodeWithLimit(limit)
 				case name == "NewFilter" && (len(ce.Args) == 2 || len(ce.Args) == 3) && (isSel && src(fset, ce.Fun) == "filter.NewFilter" || !isSel && f.Name.Name == "filter"):
 					if len(ce.Args) == 3 {
 						limitExpr = ce.Args[2]
 					}
 				default:
-					if name == "DecodeWithLimit" || name == "DecodeLengthWithLimit" {
+					if name == "DecodeWithLimit" || name == "DecodeLengthWithLimit" || name == "saveDecodedStreamContentWithLimit" {
 						fail("%s: %s: unexpected arity of %s", rel, fname, name)
 					}
 					return true
@@ -144,7 +147,7 @@ func main() {
 					e := src(fset, limitExpr)
 					id, isIdent := limitExpr.(*ast.Ident)
 					switch {
-					case strings.Contains(e, "DefaultMaxDecodeBytes"):
+					case strings.Contains(e, "DefaultMaxDecodeBytes") || strings.Contains(e, "decodeLimit(nil)"):
 						kind = "LDefault"
 					case strings.HasSuffix(e, ".MaxDecodeBytes") && !strings.Contains(e, "Limits") && !strings.HasPrefix(e, "limits."):
 						kind = "LField"
